@@ -460,15 +460,90 @@ class Stub:
         return v
 
 
+def _splitmix(seed):
+    """deterministic 32-bit word stream derived from the case (pure function of the generated case)"""
+    x = seed & 0xFFFFFFFFFFFFFFFF
+    while True:
+        x = (x + 0x9E3779B97F4A7C15) & 0xFFFFFFFFFFFFFFFF
+        z = x
+        z = ((z ^ (z >> 30)) * 0xBF58476D1CE4E5B9) & 0xFFFFFFFFFFFFFFFF
+        z = ((z ^ (z >> 27)) * 0x94D049BB133111EB) & 0xFFFFFFFFFFFFFFFF
+        yield ((z ^ (z >> 31)) >> 32) & 0xFFFFFFFF
+
+
+class Stream:
+    """raw-word source backed by a deterministic stream"""
+
+    def __init__(self, seed):
+        self.it = _splitmix(seed)
+        self.used = 0
+
+    def next(self):
+        self.used += 1
+        return next(self.it)
+
+
+def explore_shuffle(dr, n, max_leaves=20000):
+    """exact distribution of dr.shuffle over range(n) as a function of its randint draws, whatever their
+    order: depth-first walk over the decision tree of randint(a, b) calls, each branch weighted
+    1/(b-a+1).  -> {permutation: Fraction} or None when shuffle does not draw through dr.randint"""
+    from fractions import Fraction
+
+    dist = {}
+    stack = [[]]
+    leaves = 0
+    saved = dr.randint
+    try:
+        while stack:
+            prefix = stack.pop()
+            calls = []
+
+            def ri(a, b):
+                if b < a:
+                    raise ValueError("empty range")
+                k = len(calls)
+                v = prefix[k] if k < len(prefix) else a
+                calls.append((a, b, v))
+                return v
+
+            dr.randint = ri
+            seq = list(range(n))
+            dr.shuffle(seq)
+            dr.randint = saved
+            if n >= 2 and not calls:
+                return None
+            p = Fraction(1)
+            for (a, b, v) in calls:
+                p /= (b - a + 1)
+            dist[tuple(seq)] = dist.get(tuple(seq), 0) + p
+            leaves += 1
+            if leaves > max_leaves:
+                return None
+            for k in range(len(prefix), len(calls)):
+                a, b, v = calls[k]
+                for alt in range(a + 1, b + 1):
+                    stack.append([c[2] for c in calls[:k]] + [alt])
+    finally:
+        dr.randint = saved
+    return dist
+
+
 def check_structural(case):
-    """the raw words of the generator are dictated: x is accepted iff x < 2^32 - 2^32 mod w and then
-    the result is a + x mod w (exactly uniform); shuffle maps the n! index sequences to n!
-    distinct permutations"""
+    """exact uniformity where it can be established exactly.
+    randint: when the raw words are used the way the module documents (x accepted iff
+    x < 2^32 - 2^32 mod w, result a + x mod w) every value has the same number of accepted preimages and
+    uniformity is exact; an implementation that maps words differently is not reported for that - it is
+    held to a statistical test on the widths where a modulo bias would be largest.
+    shuffle: the exact distribution over the decision tree of its randint draws (any draw order) must give
+    every permutation probability 1/n!."""
+    from fractions import Fraction
+
     from cspuz.generator import deterministic_random as dr
 
     if not hasattr(dr, "_rng"):
         return dict(kind="structural-skipped")
     saved = dr._rng
+    documented = True
     try:
         a, w = case["a"], case["w"]
         limit = 2 ** 32 - (2 ** 32 % w)
@@ -476,59 +551,75 @@ def check_structural(case):
             st = Stub([x, 0])
             dr._rng = st
             v = dr.randint(a, a + w - 1)
+            if not a <= v <= a + w - 1:
+                raise Failure("randint-outside-[a,b]" + ("|a!=0" if a != 0 else ""), observed=dict(word=x, got=v),
+                              expected=[a, a + w - 1])
             if x < limit:
                 if st.used != 1 or v != a + x % w:
-                    raise Failure("randint-maps-raw-word-wrongly" + ("|a!=0" if a != 0 else ""),
-                                  observed=dict(word=x, got=v, draws=st.used), expected=a + x % w)
-            else:
-                if st.used != 2:
-                    raise Failure("randint-accepts-a-biased-raw-word", observed=dict(word=x, got=v, draws=st.used),
-                                  expected="rejection (modulo bias)")
-                if v != a:
-                    raise Failure("randint-maps-raw-word-wrongly" + ("|a!=0" if a != 0 else ""),
-                                  observed=dict(word=0, got=v), expected=a)
-        # equal numbers of accepted preimages per residue for huge w
-        W = case["bigw"]
-        lim = 2 ** 32 - (2 ** 32 % W)
-        counts = []
-        for r in (0, W - 1, case["res"] % W):
-            k = 0
-            x = r
-            while x < 2 ** 32:
-                st = Stub([x, 0])
-                dr._rng = st
-                v = dr.randint(case["a"], case["a"] + W - 1)
-                if st.used == 1:
-                    if v != case["a"] + r:
-                        raise Failure("randint-maps-raw-word-wrongly" + ("|a!=0" if case["a"] != 0 else ""),
-                                      observed=dict(word=x, got=v), expected=case["a"] + r)
-                    k += 1
-                x += W
-            counts.append(k)
-        if len(set(counts)) != 1 or counts[0] != lim // W:
-            raise Failure("randint-preimage-counts-differ", observed=counts, expected=lim // W)
+                    documented = False
+            elif st.used != 2 or v != a:
+                documented = False
+        if documented:
+            # equal numbers of accepted preimages per residue for huge w
+            W = case["bigw"]
+            lim = 2 ** 32 - (2 ** 32 % W)
+            counts = []
+            for r in (0, W - 1, case["res"] % W):
+                k = 0
+                x = r
+                while x < 2 ** 32:
+                    st = Stub([x, 0])
+                    dr._rng = st
+                    v = dr.randint(case["a"], case["a"] + W - 1)
+                    if st.used == 1:
+                        if v != case["a"] + r:
+                            documented = False
+                        k += 1
+                    x += W
+                counts.append(k)
+            if documented and (len(set(counts)) != 1 or counts[0] != lim // W):
+                raise Failure("randint-preimage-counts-differ", observed=counts, expected=lim // W)
+        if not documented:
+            # another word-to-value mapping: statistical test on widths with the largest possible modulo bias
+            for (W, low, p_uniform) in ((3 * 2 ** 30, 2 ** 30, Fraction(1, 3)), (5 * 2 ** 29, 3 * 2 ** 29, Fraction(3, 5))):
+                dr._rng = Stream(case["res"] * 7919 + W)
+                N = 3000
+                k = 0
+                for _ in range(N):
+                    v = dr.randint(case["a"], case["a"] + W - 1)
+                    if not case["a"] <= v <= case["a"] + W - 1:
+                        raise Failure("randint-outside-[a,b]" + ("|a!=0" if case["a"] != 0 else ""), observed=v)
+                    if v - case["a"] < low:
+                        k += 1
+                mean = N * float(p_uniform)
+                sd = math.sqrt(N * float(p_uniform) * (1 - float(p_uniform)))
+                if abs(k - mean) > 6.5 * sd:
+                    raise Failure("randint-not-uniform|wide-range", observed=dict(width=W, below=low, count=k, of=N),
+                                  expected="%.0f +- %.0f" % (mean, 6.5 * sd))
         # shuffle
+        dr._rng = saved
         n = case["n"]
-        seen = set()
-        for js in itertools.product(*[range(i + 1) for i in range(1, n)]):
-            st = Stub(list(js))
-            dr._rng = st
-            s = list(range(n))
-            dr.shuffle(s)
-            if sorted(s) != list(range(n)):
-                raise Failure("shuffle-not-a-permutation", observed=s)
-            seen.add(tuple(s))
-        if len(seen) != math.factorial(n):
-            raise Failure("shuffle-index-sequences-collide", observed=len(seen), expected=math.factorial(n))
-        # choice / random
-        st = Stub([case["words"][0]])
+        dist = explore_shuffle(dr, n)
+        shuffle_exact = dist is not None
+        if dist is not None:
+            for perm in dist:
+                if sorted(perm) != list(range(n)):
+                    raise Failure("shuffle-not-a-permutation", observed=list(perm))
+            want = Fraction(1, math.factorial(n))
+            bad = {perm: pr for perm, pr in dist.items() if pr != want}
+            if len(dist) != math.factorial(n) or bad:
+                raise Failure("shuffle-not-exactly-uniform", observed=dict(
+                    permutations_reached=len(dist), example=[[list(k), str(v)] for k, v in sorted(bad.items())[:3]]),
+                    expected="each of the %d permutations with probability %s" % (math.factorial(n), want))
+        # random
+        st = Stub([case["words"][0], case["words"][-1]])
         dr._rng = st
         r = dr.random()
-        if r != case["words"][0] / 2 ** 32 or not 0 <= r < 1:
-            raise Failure("random-maps-raw-word-wrongly", observed=r)
+        if not 0 <= r < 1:
+            raise Failure("random-outside-[0,1)", observed=r)
     finally:
         dr._rng = saved
-    return dict(kind="structural")
+    return dict(kind="structural", documented_mapping=documented, shuffle_exact=shuffle_exact)
 
 
 # ------------------------------------------------------------------ generators
@@ -649,6 +740,11 @@ def shard(arg):
                 nt = out["calls"] >= 2
             elif case["kind"] == "range":
                 nt = out.get("a_nonzero", True)
+            elif case["kind"] == "struct":
+                if out.get("documented_mapping"):
+                    cl.append("struct:documented-word-mapping")
+                if out.get("shuffle_exact"):
+                    cl.append("struct:shuffle-distribution-exact")
             st.case(canon=case, nontrivial=nt, classes=cl,
                     sample=case if nt and len(json.dumps(case, default=repr)) < 700 else None)
 
